@@ -135,6 +135,11 @@ def oracle(ctx: Ctx, res) -> None:
     t: oc.Truth = res["truth"]
     cr = res["crawl"]
     payload = res["case"]
+    if payload["opts"].get("subject"):
+        # --html-subject writes the pages of the named objects only (no summary pages, no index): a deliberately partial
+        # output, the property speaks about complete runs. C12 judges these runs.
+        ctx.count("subject-run-not-judged")
+        return
     attributed = set()
     for fn, prod, href, label, why in oc.dead_links(res):
         attributed.add((fn, href))
@@ -161,8 +166,10 @@ def oracle(ctx: Ctx, res) -> None:
                 elif v.startswith("#") and ("rst-" + oc.unquote(v[1:])) in pg["anchors"]:
                     # markup written by docutils itself: pydoctor prefixes ids with 'rst-', this href was not
                     sig = "dead-link:rst-docstring:unprefixed-fragment"
-                elif v.startswith("#rst-") and "rst-internal" in pg.get("rstrefs", {}).get(v, ()) \
-                        and not any(c in pg["rstrefs"][v] for c in ("rst-footnote-reference", "rst-citation-reference")):
+                elif v.startswith("#rst-") and not v.startswith("#rst-rst-") \
+                        and set(pg.get("rstrefs", {}).get(v, ())) >= {"rst-reference", "rst-internal", "ctx:summary"} \
+                        and not {"ctx:sidebar", "ctx:body", "rst-footnote-reference", "rst-citation-reference", "rst-toc-backref"} & set(pg["rstrefs"][v]) \
+                        and any(v[1:] in p2["anchors"] for f2, p2 in cr["pages"].items() if f2 != fn and p2.get("object_page")):
                     # a `name_` reference of the first sentence, deep-copied into the summary by SummaryExtractor; its
                     # `.. _name:` target is further down the docstring and stays on the object's own page
                     sig = "dead-link:rst-docstring:summary-internal-reference"
